@@ -14,8 +14,11 @@ func (v *vc) smtRelaxed(ob *obligation) string {
 		b.WriteString(d)
 		b.WriteByte('\n')
 	}
-	for _, l := range v.eng.contracts.smt {
+	for i, l := range v.eng.contracts.smt {
 		if strings.Contains(l, "(forall") || strings.Contains(l, "(exists") {
+			continue
+		}
+		if p := v.eng.contracts.smtPkg[i]; p != "" && (v.fc == nil || p != v.fc.pkgPath) {
 			continue
 		}
 		b.WriteString(l)
